@@ -822,6 +822,26 @@ func (a *A) ruleLateUpdateIdentity() {
 			ok = true
 		}
 	})
+	// the id put together without a format string (strconv + concatenation): the stored value's own term
+	allInstrs(sw, func(in ssa.Instruction) {
+		mu, isMU := in.(*ssa.MapUpdate)
+		if !isMU {
+			return
+		}
+		if k, isK := mu.Key.(*ssa.Const); !isK || k.Value == nil || k.Value.Kind() != constant.String || constant.StringVal(k.Value) != "window_id" {
+			return
+		}
+		v := mu.Value
+		if mi, isMI := v.(*ssa.MakeInterface); isMI {
+			v = mi.X
+		}
+		j := TermOf(v, nil).String()
+		hasStart := strings.Contains(j, "Slot.Start") || strings.Contains(j, "WindowStart(") || strings.Contains(j, "GetStartTime(")
+		hasEnd := strings.Contains(j, "Slot.End") || strings.Contains(j, "WindowEnd(") || strings.Contains(j, "GetEndTime(")
+		if hasStart && hasEnd && strings.Contains(j, "p1[]") && strings.Contains(j, "Slot") && !strings.Contains(j, "fmt.Sprintf") {
+			ok = true
+		}
+	})
 	a.Check(ok, fname(sw)+"#id-from-slot", sw.Pos(), "window_id is formatted from Start and End of the batch's slot", "window_id is not derived from the batch slot's Start and End: first delivery and late re-delivery could carry different ids")
 }
 
